@@ -25,6 +25,19 @@ def parser():
     if 'p' not in _state:
         from data.syntax.py_rules import py_rules
         from rogw.tranp.implements.syntax.tranp.syntax import SyntaxParser
+        if not _state.get('compiled_grammar'):
+            # history of a build script: this process has compiled the grammar file with the engine's own rules (another rule
+            # set whose terminals share patterns with the Python rules) before it parses any Python text
+            _state['compiled_grammar'] = True
+            try:
+                import os
+                from data.syntax.gram_rules import gram_rules
+                from data.syntax.gram_tokenizer import gram_tokenizer
+                from mc.core.runner import REPO
+                with open(os.path.join(REPO, 'data', 'syntax', 'py_gram.lark'), encoding='utf-8') as f:
+                    SyntaxParser(gram_rules(), gram_tokenizer()).parse(f.read(), 'entry')
+            except Exception:  # noqa  -- whether the grammar file compiles is C12's subject
+                pass
         _state['p'] = SyntaxParser(py_rules())
     return _state['p']
 
